@@ -97,6 +97,8 @@ class SymBase:
         tab = {"A": self.A, "B": self.B, "QA": self.QA, "QB": self.QB}[which][i]
         name = "%s%d" % (which, i)
         shp = self.shapes.get((which, i), "leaf")
+        if shp == "same_as_0":          # the very same opaque formula as position 0
+            return tt.Leaf("%s0" % which, {"A": self.A, "B": self.B, "QA": self.QA, "QB": self.QB}[which][0])
         return build_shape(shp, name, tab, self)
 
     def tables(self):
@@ -135,6 +137,12 @@ def build_shape(shp, name, tab, sb):
         if shp == "or_and":
             return tt.Or(l1, tt.And(l2, l3))
         return tt.And(l1, tt.Or(l2, l3))
+    if shp == "deep6":
+        # leaf buried below five conjunctions with Top: str() of the formula hides the leaf
+        f = tt.Leaf(name, tab)
+        for _ in range(5):
+            f = tt.And(f, tt.TRUE())
+        return f
     if shp == "and_top":
         return tt.And(tt.Leaf(name, tab), tt.TRUE())
     if shp == "or_bot":
